@@ -620,3 +620,65 @@ Definition step (o : nopts) (st : lstate) (x : op) : lstate * option palloc :=
 
 Definition run (o : nopts) (ops : list op) : lstate :=
   fold_left (fun st x => fst (step o st x)) ops l_init.
+
+(* ------------------------------------------------------------------ informer events *)
+(* podEventHandler (pod_eventhandler.go): what the pod informer, the reservation-to-pod
+   adapter and the ForgetPod hook deliver, reduced to the fields the handler reads.
+   ev_kind: 0 OnAdd(a pod)   1 OnUpdate(old pod, new pod)   2 OnDelete(a pod)
+            3 OnDelete(DeletedFinalStateUnknown{Obj: a pod})   (tombstone of a missed delete)
+            4 OnDelete(DeletedFinalStateUnknown{Obj: not a pod})
+            5 OnAdd(not a pod)   6 deletePod(a pod) as registered with RegisterForgetPodHandler
+            7 OnUpdate(not a pod, a pod)
+   ev_pod: the allocation the pod's resource-status / resource-spec annotations spell *)
+Record podev := mkEv {
+  ev_kind : Z;
+  ev_assigned : bool;        (* pod.Spec.NodeName != "" (the node of this ledger) *)
+  ev_oldassigned : bool;     (* OnUpdate: oldPod.Spec.NodeName != "" *)
+  ev_terminated : bool;      (* util.IsPodTerminated: phase Succeeded or Failed *)
+  ev_malformed : bool;       (* an annotation or the cpuset string does not parse *)
+  ev_pod : palloc }.
+
+(* podEventHandler.deletePod *)
+Definition ev_delete_pod (e : podev) : option op :=
+  if ev_assigned e then Some (ORelease (p_uid (ev_pod e))) else None.
+
+(* podEventHandler.updatePod(oldPod, pod); [has_old] = oldPod != nil *)
+Definition ev_update_pod (has_old : bool) (e : podev) : option op :=
+  if negb (ev_assigned e)
+  then (if has_old && ev_oldassigned e then Some (ORelease (p_uid (ev_pod e))) else None)
+  else if ev_terminated e then ev_delete_pod e
+  else if ev_malformed e then None
+  else if palloc_empty (ev_pod e) then None
+  else Some (OUpdate (ev_pod e)).
+
+(* OnAdd / OnUpdate / OnDelete: the resourceManager call the event results in, if any *)
+Definition handle_event (e : podev) : option op :=
+  if ev_kind e =? 0 then ev_update_pod false e
+  else if ev_kind e =? 1 then ev_update_pod true e
+  else if (ev_kind e =? 2) || (ev_kind e =? 3) || (ev_kind e =? 6) then ev_delete_pod e
+  else None.
+
+(* one item of a node's history: a call the scheduler makes itself, or an informer event *)
+Inductive item :=
+| IOp (x : op)
+| IEvent (e : podev)
+| IEcho (uid : Z).
+  (* the informer echoes a pod the ledger records, as bound: OnUpdate with the resource-status
+     annotation that PreBind (preBindObject) writes from the recorded allocation *)
+
+(* the resourceManager call an item results in, given the pods the ledger records *)
+Definition lower (ps : list palloc) (h : item) : option op :=
+  match h with
+  | IOp x => Some x
+  | IEvent e => handle_event e
+  | IEcho uid => match find_pod uid ps with Some p => Some (OUpdate p) | None => None end
+  end.
+
+Definition istep (o : nopts) (st : lstate) (h : item) : lstate * option palloc :=
+  match lower (l_pods st) h with
+  | Some x => step o st x
+  | None => (st, None)
+  end.
+
+Definition irun (o : nopts) (hs : list item) : lstate :=
+  fold_left (fun st h => fst (istep o st h)) hs l_init.
